@@ -406,7 +406,11 @@ func (e *Eng) verifyFunc(fobj *types.Func) {
 					continue
 				}
 				g := e.evalSpec(x.St, q, xenv, env)
-				e.oblige(x.St, "onexit", fmt.Sprintf("#%d@%s%d", qi+1, kind, nexit), g.T, x.Pos)
+				at := fmt.Sprintf("#%d@%s%d", qi+1, kind, nexit)
+				if x.Kind == ExitPanic && x.Label != "" {
+					at += "(" + x.Label + ")"
+				}
+				e.oblige(x.St, "onexit", at, g.T, x.Pos)
 				e.obls[len(e.obls)-1].Src = e.con.OnExitSrc[qi]
 			}
 		}
